@@ -5,7 +5,7 @@
      output [count_200 ok_amqp_records ok_file_records amqp_attempts] *)
 From Relic Require Import Base.Prelude Base.Val Generated.C06_gen C06.Model.
 Definition nz (n : nat) : val := VZ (Z.of_nat n).
-Definition run (v : val) : val :=
+Definition run_trace (v : val) : val :=
   let b n := vbool (vnth n v) in
   let mode := vz (vnth 0 v) in
   if mode =? 2 then
@@ -20,3 +20,33 @@ Definition run (v : val) : val :=
   else
     let '(t, ok) := sign_cmd (b 1%nat) (b 2%nat) (b 3%nat) s in
     VL [of_bool ok; nz (count_ok_amqp t); nz (count_ok_append t); nz (attempts_amqp t); nz (attempts_append t)].
+
+(* ---- system-call level (C06/Append.v)
+   mode 3 (one AppendTo call): [3 J fail_k open_ok marshal_ok short] — record of J bytes, the fail_k-th write(2) fails (-1: none),
+     short > 0: the first write(2) takes only that many bytes
+     output [ret sizes oks ends_with_lf bad]   ret: 1 returned nil, 0 returned an error, 2 did not return
+   mode 4 (concurrent appenders): [4 [[J ...] ...] [appender ...]] — per appender the lengths of the records it appends one
+     after the other; the schedule names the appender that performs the next write(2)
+     output [1 line_lengths torn_tail_length] or [0] when the schedule does not fit the appenders' system calls *)
+From Relic Require Import C06.Append.
+Definition rec_of (j : Z) : bytes := repeat 120 (Z.to_nat j).
+Definition ends_lf (c : bytes) : Z := if last c 0 =? 10 then 1 else 0.
+Definition run3 (v : val) : val :=
+  let k := vz (vnth 2 v) in
+  let sh := vz (vnth 5 v) in   (* > 0: the first write(2) takes only that many bytes *)
+  let E := mkEnv (vbool (vnth 3 v)) (vbool (vnth 4 v)) (fun n => Z.of_nat n =? k)
+                 (fun n => if (Nat.eqb n 0) && (0 <? sh) then Some sh else None) in
+  let s := run_append E (rec_of (vz (vnth 1 v))) in
+  VL [VZ (match s_ret s with Some true => 1 | Some false => 0 | None => 2 end);
+      VZs (map (fun c : syscall => zlen (fst c)) (s_sys s)); VZs (map (fun c : syscall => if snd c then 1 else 0) (s_sys s));
+      VZs (map (fun c : syscall => ends_lf (fst c)) (s_sys s)); of_bool (s_bad s)].
+Definition run4 (v : val) : val :=
+  let ws := map (fun w => concat (map (fun j => emit_prog (rec_of (vz j))) (vl w))) (vl (vnth 1 v)) in
+  match sched_run ws (map (fun i => Z.to_nat (vz i)) (vl (vnth 2 v))) with
+  | None => VL [VZ 0]
+  | Some evs => let '(ls, tail) := spec_lines (file_after append_open_append evs) in
+                VL [VZ 1; VZs (map (fun l : bytes => zlen l) ls); VZ (zlen tail)]
+  end.
+Definition run (v : val) : val :=
+  let mode := vz (vnth 0 v) in
+  if mode =? 3 then run3 v else if mode =? 4 then run4 v else run_trace v.
